@@ -4,6 +4,7 @@ import (
 	"encoding/json"
 	"fmt"
 	"os"
+	"path/filepath"
 	"sort"
 	"strings"
 	"time"
@@ -111,4 +112,135 @@ func cmdCheck(args []string) int {
 		fmt.Println("OK property=" + prop + " " + strings.TrimSpace(fmt.Sprintf("known-findings=%d", len(v.Known))))
 	}
 	return v.ExitCode
+}
+
+// cmdReplay: `govc replay <ID> <replay.json>` re-decides the one obligation a replay file names on the CURRENT tree:
+// bounded-tier obligations carry their own experiment (program source, bindings, expected outcome) and are re-run on
+// the real code directly; every other obligation is regenerated from the current source (only the engine / function it
+// belongs to), discharged again and, if it is refuted, replayed.  Exit 1 + VIOLATION line if it still fails, 0 if not.
+func cmdReplay(args []string) int {
+	if len(args) < 2 {
+		usage()
+	}
+	prop, path := args[0], args[1]
+	b, err := os.ReadFile(path)
+	if err != nil {
+		fmt.Fprintln(os.Stderr, "govc replay:", err)
+		return 2
+	}
+	var rec struct {
+		Obligation string            `json:"obligation"`
+		ReplayKind string            `json:"replay_kind"`
+		ReplayData map[string]string `json:"replay_data"`
+		Model      map[string]string `json:"model"`
+		Witness    string            `json:"witness"`
+	}
+	if err := json.Unmarshal(b, &rec); err != nil || rec.Obligation == "" {
+		fmt.Fprintln(os.Stderr, "govc replay: not a replay file:", path)
+		return 2
+	}
+	env := core.EnvFromOS(prop)
+	env.SetTier(env.Tier)
+	env.Out = filepath.Join(env.Out, "replay-run")
+	cf, err := core.LoadClaims(env.Verif, prop)
+	if err != nil {
+		fmt.Fprintln(os.Stderr, "govc: no claims for", prop, ":", err)
+		return 2
+	}
+	env.Claimed = func(string) bool { return true }
+	os.MkdirAll(env.Work, 0o755)
+	defer os.RemoveAll(env.Work)
+	p, err := load.Load(env.Repo)
+	if err != nil {
+		fmt.Fprintln(os.Stderr, "govc: cannot load /repo:", err)
+		return 2
+	}
+	name := rec.Obligation
+	report := func(o *core.Obl) int {
+		if o.Status == core.Discharged {
+			fmt.Printf("REPLAY property=%s obligation=%s: holds on the current tree\n", prop, name)
+			return 0
+		}
+		fmt.Printf("FAILED-OBLIGATION %s [%s] %s %s\n", o.Name, o.Status, o.Detail, o.Witness)
+		if o.Replay != nil {
+			fmt.Printf("REPLAY confirmed=%v %s\n", o.Replay.Confirmed, strings.ReplaceAll(o.Replay.Output, "\n", " | "))
+		}
+		line := fmt.Sprintf("VIOLATION property=%s replay=%s", prop, path)
+		if o.Replay == nil || !o.Replay.Confirmed {
+			line += " no-failing-input-found"
+		}
+		fmt.Println(line)
+		return 1
+	}
+	if strings.HasPrefix(name, "claimed obligations missing") {
+		fmt.Println("govc replay: this file records a detached claim; run the check itself to see whether it attaches again")
+		return 2
+	}
+	// self-contained experiment of the bounded tier
+	if rec.ReplayKind == "bounded" && rec.ReplayData != nil && rec.ReplayData["spec"] != "" {
+		o := &core.Obl{Name: name, Status: core.Refuted, Tier: "bounded", ReplayKind: "bounded", ReplayData: rec.ReplayData, Model: rec.Model, Witness: rec.Witness}
+		replayers["bounded"](env, p, prop, o)
+		if o.Replay != nil && !o.Replay.Confirmed {
+			o.Status = core.Discharged
+		}
+		return report(o)
+	}
+	// regenerate: pick the engine (and function) the obligation belongs to
+	var engine string
+	var sel json.RawMessage
+	switch {
+	case strings.HasPrefix(name, "sweep/"):
+		engine, sel = "sweep", cf.Engines["sweep"]
+	case strings.HasPrefix(name, "bnd/") && cf.Engines["gotest"] != nil && rec.ReplayKind != "bounded":
+		engine, sel = "gotest", cf.Engines["gotest"]
+	case strings.HasPrefix(name, "bnd/"):
+		engine, sel = "bounded", cf.Engines["bounded"]
+	case strings.HasPrefix(name, "lemma/lean/"):
+		engine, sel = "lean", cf.Engines["lean"]
+	case strings.HasPrefix(name, "lemma/"):
+		engine = "vc"
+		sel, _ = json.Marshal(map[string][]string{"funcs": {}, "lemmas": {strings.TrimPrefix(name, "lemma/")}})
+	default:
+		engine = "vc"
+		fn := name
+		if i := strings.Index(fn, "/"); i > 0 {
+			fn = fn[:i]
+		}
+		sel, _ = json.Marshal(map[string][]string{"funcs": {fn}, "lemmas": {}})
+	}
+	e := engines[engine]
+	if e == nil || sel == nil {
+		fmt.Fprintln(os.Stderr, "govc replay: property", prop, "has no engine", engine)
+		return 2
+	}
+	r, err := e(env, p, prop, sel)
+	if err != nil {
+		fmt.Fprintf(os.Stderr, "govc: engine %s: %v\n", engine, err)
+		return 2
+	}
+	for _, o := range r.Obls {
+		if o.Name != name {
+			continue
+		}
+		if o.Status == core.Refuted && o.Replay == nil {
+			if rp := replayers[o.ReplayKind]; rp != nil {
+				rp(env, p, prop, o)
+			}
+		}
+		return report(o)
+	}
+	// the obligation is not generated any more: report what the function's obligations look like now
+	bad := 0
+	for _, o := range r.Obls {
+		if o.Status != core.Discharged && !o.Canary {
+			bad++
+			fmt.Printf("FAILED-OBLIGATION %s [%s] %s\n", o.Name, o.Status, o.Detail)
+		}
+	}
+	fmt.Printf("REPLAY property=%s obligation=%s: not generated on the current tree (%d other obligations of the same unit fail)\n", prop, name, bad)
+	if bad > 0 {
+		fmt.Printf("VIOLATION property=%s replay=%s no-failing-input-found\n", prop, path)
+		return 1
+	}
+	return 0
 }
